@@ -217,8 +217,12 @@ ExecOp(s, op) ==
                                 !.ost = Pop(st, 2) \o <<[buf EXCEPT !.len = k], BoolV(k = buf.len)>>]
          [] OTHER -> Skip(s)
 
-\* execute one object in execution context
-Exec(s, o) ==
+\* execute one object in execution context.  A name whose value is again an executable
+\* name is followed (each hop is dispatched as a further operation, interpreter.go label
+\* recurseTail); after 40 hops the model gives up (a name defined as itself runs until the
+\* budget strikes).
+RECURSIVE ExecHop(_, _, _)
+ExecHop(s, o, fuel) ==
     IF o.t = "xname" THEN
         LET d == Where(s.heap, s.dst, o.s)
         IN IF d = 0 THEN Fail(s, {"undefined"})
@@ -227,9 +231,11 @@ Exec(s, o) ==
                 IN IF ~Live(s1) THEN s1
                    ELSE IF v.t = "op" THEN ExecOp(s1, v.s)
                    ELSE IF v.t = "proc" THEN EnterProc(s1, v)
+                   ELSE IF v.t = "xname" THEN (IF fuel = 0 THEN Skip(s1) ELSE ExecHop(s1, v, fuel - 1))
                    ELSE PushV(s1, v)
     ELSE IF o.t = "op" THEN ExecOp(s, o.s)
     ELSE PushV(s, o)                       \* literals, and procedures met directly: pushed
+Exec(s, o) == ExecHop(s, o, 40)
 
 \* executeOne(obj, false): operand-stack test, count, dispatch
 Guarded(s, o) ==
